@@ -30,6 +30,8 @@ func init() {
 			for _, n := range []string{"persistsInMem", "persistsIdle", "persistsWi", "persistsSize", "unchangedChecksType", "saveAtomic", "unchangedChecksDisk"} {
 				fs.Tri(n, Unknown, path)
 			}
+			fs.Tri("comparePatternExact", Unknown, "app/name/name.go")
+			fs.Tri("summonResolvesFresh", Unknown, "app/core/hydra/hydra.go")
 		}
 		f, err := Load(path)
 		if err != nil {
@@ -42,6 +44,7 @@ func init() {
 		c21Persist(fs, f, path)
 		c21Unchanged(fs, f, path)
 		c21SaveAtomic(fs, f, path)
+		c21Glue(fs)
 	}})
 }
 
@@ -477,5 +480,68 @@ func c21SaveAtomic(fs *Facts, f *File, path string) {
 	case len(writes) == 1 && len(renames) == 1 && f.Str(writes[0].Args[0]) != "filePath" &&
 		f.Str(renames[0].Args[0]) == f.Str(writes[0].Args[0]) && f.Str(renames[0].Args[1]) == "filePath":
 		fs.Tri("saveAtomic", Yes, where)
+	}
+}
+
+// c21Glue: the two places outside settings.go the resolution depends on.
+//
+//	comparePatternExact  yes: name.ComparePattern is exactly
+//	                          if n.SanctuaryID != p.GetSanctuaryID() { return false }
+//	                          if p.GetRealmName() != "*" && n.RealmName != p.GetRealmName() { return false }
+//	                          if p.GetSwampName() != "*" && n.SwampName != p.GetSwampName() { return false }
+//	                          return true
+//	summonResolvesFresh  yes: hydra.createNewSwamp starts with `swampSettings := h.settingsInterface.GetBySwampName(swampName)`,
+//	                          and swampSettings is assigned nowhere else in the function
+func c21Glue(fs *Facts) {
+	const npath = "app/name/name.go"
+	if nf, err := Load(npath); err == nil {
+		if fd := nf.Func("name", "ComparePattern"); fd != nil && fd.Body != nil && fd.Recv != nil && len(fd.Recv.List[0].Names) == 1 &&
+			fd.Type.Params != nil && len(fd.Type.Params.List) == 1 && len(fd.Type.Params.List[0].Names) == 1 {
+			c07Canon(fd, append([]string{"n", "p"}, c07LocalNames(fd)[2:]...))
+			var got []string
+			for _, st := range fd.Body.List {
+				got = append(got, nf.Str(st))
+			}
+			want := []string{
+				`if n.SanctuaryID != p.GetSanctuaryID() { return false }`,
+				`if p.GetRealmName() != "*" && n.RealmName != p.GetRealmName() { return false }`,
+				`if p.GetSwampName() != "*" && n.SwampName != p.GetSwampName() { return false }`,
+				`return true`}
+			if strings.Join(got, "\n") == strings.Join(want, "\n") {
+				fs.Tri("comparePatternExact", Yes, npath+":"+itoa(nf.Line(fd)))
+			}
+		}
+	} else {
+		fs.Err("%v", err)
+	}
+	const hpath = "app/core/hydra/hydra.go"
+	if hf, err := Load(hpath); err == nil {
+		if fd := hf.Func("hydra", "createNewSwamp"); fd != nil && fd.Body != nil && len(fd.Body.List) > 0 {
+			c07Canon(fd, append([]string{"h", "islandID", "swampName"}, c07LocalNames(fd)[3:]...))
+			first := hf.Str(fd.Body.List[0]) == "swampSettings := h.settingsInterface.GetBySwampName(swampName)"
+			assigns := 0
+			ast.Inspect(fd, func(n ast.Node) bool {
+				if as, ok := n.(*ast.AssignStmt); ok {
+					for _, l := range as.Lhs {
+						if hf.Str(l) == "swampSettings" {
+							assigns++
+						}
+					}
+				}
+				if vs, ok := n.(*ast.ValueSpec); ok {
+					for _, nm := range vs.Names {
+						if nm.Name == "swampSettings" {
+							assigns++
+						}
+					}
+				}
+				return true
+			})
+			if first && assigns == 1 {
+				fs.Tri("summonResolvesFresh", Yes, hpath+":"+itoa(hf.Line(fd)))
+			}
+		}
+	} else {
+		fs.Err("%v", err)
 	}
 }
